@@ -65,6 +65,7 @@ def run(ctx):
     a_pending_message(ctx)
     c_passthrough_history(ctx)
     a_trigger_by_type(ctx)
+    b_rail_lists_as_configured(ctx)
     c_runnable_passthrough(ctx)
     _railrules.context_globals(ctx, "C01.e.context-globals", ("input", "retrieval", "generic"))
 
@@ -716,6 +717,38 @@ def c_runnable_passthrough(ctx):
                   "the wrapped runnable is invoked with the user message as the input rails left it (`$user_message`)" if ok else
                   "the wrapped runnable is invoked with `passthrough_input`, captured before the input rails ran: a message that a rail masked / rewrote reaches the chain (and its LLM) "
                   "in its original form", line=f.lineno)
+
+
+CFGPY_ = "nemoguardrails/rails/llm/config.py"
+
+
+def b_rail_lists_as_configured(ctx, rule="C01.b.lists-as-configured", kinds=("InputRails", "RetrievalRails")):
+    """`all configured input rails, in the configured order`: llm_flows.co iterates `$config.rails.<kind>.flows`.  What it iterates must be the list the configuration
+    names - the model classes that hold the list may validate it, but a validator that REWRITES the values (dropping "duplicates" by flow id makes the second of two
+    differently parameterised rails - `content safety check input $model=a` / `$model=b` - vanish) changes what runs without any trace."""
+    from ..source import find_class
+    t = ctx.tree.ast(CFGPY_)
+    n = 0
+    for k in kinds:
+        cls = find_class(t, k)
+        if cls is None:
+            raise AnalysisError("class %s not found in config.py" % k, anchor=CFGPY_ + "::" + k)
+        n += 1
+        vals = [f for f in cls.body if isinstance(f, (ast.FunctionDef,)) and any("validator" in src(d) for d in f.decorator_list)]
+        # a validator may check and raise; it may not return anything but what it was given
+        rewriting = []
+        for f in vals:
+            params = {a.arg for a in f.args.args}
+            for r in ast.walk(f):
+                if isinstance(r, ast.Return) and r.value is not None and not (isinstance(r.value, ast.Name) and r.value.id in params):
+                    rewriting.append(f)
+                    break
+        ok = not rewriting
+        ctx.check(rule, CFGPY_, k, "the list of rail flows is kept as configured", ok,
+                  "no validator of %s rewrites the configured values" % k if ok else
+                  "validator `%s` of %s returns something else than the values it was given: the list that `run %s rails` iterates is no longer the configured one (a rail listed "
+                  "twice with different parameters is run once)" % (rewriting[0].name, k, k.replace("Rails", "").lower()), line=(rewriting[0].lineno if rewriting else cls.lineno))
+    ctx.floor(rule, CFGPY_, "model classes that hold a list of rail flows", n, len(kinds))
 
 
 def a_pending_message(ctx):
